@@ -124,8 +124,7 @@ def decide(pid, tier, seed, jobs, record, no_bounded, t0):
         r = next(x for x in results if x["function"] == f)
         if r["status"] == "ok" and counts.get(f, 0) == 0:
             guard_problems.append(f"{f}: zero obligations generated")
-    if not fns:
-        guard_problems.append("no function under contract carries this property")
+    bounded_only = not fns
 
     # ---- bounded stand-in
     bounded = None
@@ -183,8 +182,9 @@ def decide(pid, tier, seed, jobs, record, no_bounded, t0):
     # ---- evidence
     ev = evidence(pid, tier, seed, meta, reg, fns, results, proof_obls, discharged, refuted, unknown, covers,
                   undecided_fns, bounded, violations, guard_problems, known_hits, time.time() - t0)
-    os.makedirs(os.path.join(VERIF, "evidence"), exist_ok=True)
-    json.dump(ev, open(os.path.join(VERIF, "evidence", f"{pid}.json"), "w"), indent=1)
+    evdir = os.environ.get("VERIF_EVIDENCE_DIR", os.path.join(VERIF, "evidence"))   # (redirected only by tools/seeded_matrix.py)
+    os.makedirs(evdir, exist_ok=True)
+    json.dump(ev, open(os.path.join(evdir, f"{pid}.json"), "w"), indent=1)
 
     for l in lines:
         print(l)
@@ -282,7 +282,11 @@ def evidence(pid, tier, seed, meta, reg, fns, results, proof_obls, discharged, r
         cov["evaluations"] = bounded.get("evaluations", 0)
         cov["distinct_nontrivial"] = bounded.get("distinct_nontrivial", 0)
         cov["rule"] = "bounded part only: " + str(bounded.get("rule"))
-    return {"property_id": pid, "tier": tier, "seed": seed, "level": "proof", "coverage": cov,
+    level = "proof" if fns else "exploration"
+    if not fns:
+        cov["samples"] = (bounded or {}).get("samples", [])[:5] or [{"note": "no case evaluated"}]
+        cov["explanation"] = "NO function carrying this property is under contract yet: this run is the BOUNDED stand-in only (not a proof). " + cov["explanation"]
+    return {"property_id": pid, "tier": tier, "seed": seed, "level": level, "coverage": cov,
             "assumptions": sorted(trusted), "wall_s": round(wall, 2), "violations": violations}
 
 
